@@ -49,6 +49,8 @@ struct Out {
 
 static Out run(const std::vector<OpS>& h, bool leak_oracle) {
     Out out;
+    auto describe = [&h]() { return hist_str(h); };
+    hm::CrashScope crash_scope(describe);
     ykc::sequential_teardown_mode();
     ykc::reset_library_statics();
     ykalloc::clear_errors();
@@ -237,6 +239,7 @@ static Key128 digest(const std::string& s) {
 
 int main(int argc, char** argv) {
     hm::Args a = hm::parse(argc, argv);
+    hm::install_crash_reporter("ykseq");
     bool quick = a.tier == "quick";
     bool leak = a.oracle == "all" || a.oracle.find("leak") != std::string::npos;
     g_names = {std::string(""), std::string("a"), std::string("a\0", 2), std::string("aaaaaaaab"), std::string(300, 'n'), std::string("\xff")};
@@ -277,6 +280,11 @@ int main(int argc, char** argv) {
         }
         alphabet.push_back({LIST, 0, 0, 0});
         double s0 = ykmc::mono_now();
+        {
+            std::string cp = "storage/names";
+            for (int n : subsets[si]) cp += std::to_string(n);
+            hm::crash_part(cp, "seq");
+        }
         long states = 0, transitions = 0, evals = 0, nontrivial = 0;
         bool exhaustive = true;
         int depth_done = 0;
